@@ -1,10 +1,12 @@
 prop("C45",
-     theorems=["NeoFS.Handlers.checker_sound", "NeoFS.Handlers.checker_sound_view", "NeoFS.Handlers.not_mentions_no_check", "NeoFS.C45.client_handlers_guarded",
+     theorems=["NeoFS.C45.maintenance_flag_wiring", "NeoFS.Handlers.checker_sound", "NeoFS.Handlers.checker_sound_view", "NeoFS.Handlers.not_mentions_no_check", "NeoFS.C45.client_handlers_guarded",
                "NeoFS.C45.effects_follow_maintenance_check", "NeoFS.C45.in_maintenance_checked", "NeoFS.C45.in_maintenance_no_effect",
                "NeoFS.C45.non_client_do_not_consult", "NeoFS.C45.replicate_never_checks_maintenance",
                "NeoFS.C45.replicate_served_in_maintenance"],
      engines=[dict(name="rpc", quick=1, thorough=1)],
-     claim="Same regenerated handler terms and once-proved checker soundness as C29 (every method of protoobject.ObjectServiceServer plus "
+     claim="What 'in maintenance' means in the running node is pinned by regenerated facts about cmd/neofs-node (package main): the flag read by the "
+           "handlers' guard is written only by startMaintenance/stopMaintenance, called only from the operator's control request (maintenance_flag_wiring). "
+           "Same regenerated handler terms and once-proved checker soundness as C29 (every method of protoobject.ObjectServiceServer plus "
            "same-shaped exported server methods, re-extracted from the working tree on every run). For every client-facing handler Lean proves "
            "over ALL runs: each storage / forwarding / data effect is preceded by a LocalNodeUnderMaintenance check whose latest answer was 'no' "
            "(effects_follow_maintenance_check), and if every maintenance check answers 'yes' no run contains such an effect whatever the other "
@@ -21,7 +23,7 @@ prop("C45",
           "shared with C29). docs/maintenance.md is not compared.",
      rule="every handler found by reflection x scenario maint (plus all C29 scenarios for context) x 5 request variants; non-trivial = client "
           "operation refused with status NodeUnderMaintenance and zero recorded effects, or Replicate served without reading the flag; distinct by op line",
-     trusted=["harness/extract/skel.go and rules.go (control-skeleton translator and tag table)",
+     trusted=["harness/extract/wiring.go (go/ast scan of cmd/neofs-node for writes/reads/aliases of isMaintenance and callers of its writers, by name)", "harness/extract/skel.go and rules.go (control-skeleton translator and tag table)",
               "recording fakes in harness/eng_rpc.go (the maintenance flag is a field of the fake FSChain)"],
      assumptions=["the flag read by LocalNodeUnderMaintenance is the node's maintenance state (wiring in package main, read only)",
                   "putsvc.Streamer refuses Close/SendChunk on a stream that was never initialised"])
